@@ -187,6 +187,7 @@ def run(rep, idx, tier):
     _glue.reset_discipline(rep, "C16.6", idx, ["gpio:Peripheral", oa if oa is not None else "gpio:Peripheral.Output._FieldAction"],
                            allowed=[("Peripheral", "pin_i_sync_ff")], allowed_role=synchroniser_stage)
     _glue.write_once_handles(rep, "C16.6", idx, "gpio:Peripheral")
+    _glue.vector_mux_selectors(rep, "C16.4", idx, "gpio:Peripheral.elaborate", "no pin's mode switches another pin's drivers through a Mux selector")
     _glue.param_refusals(rep, "C16.5", idx, only=["gpio:Peripheral.__init__"])
     c = get_ctx(idx, "gpio:Peripheral.elaborate")
     ctor = get_ctor(idx, "gpio:Peripheral")
